@@ -17,6 +17,7 @@ import (
 var MalformNames = []string{"noEntry", "nilKeyMsg", "zeroKey", "emptyGroup", "zeroNHInGroup", "badPrefix", "labelRange", "unknownGroupNI", "zeroGroup", "macEntry", "badAddr", "undefinedEnum", "nilPayload"}
 
 var lastMalform string
+var zeroCount int
 
 // Malform mutates op in place; it returns the class to assert.
 func Malform(r *rand.Rand, op *spb.AFTOperation) string {
@@ -107,18 +108,29 @@ func MalformWith(which int, op *spb.AFTOperation) string {
 		}
 		return ""
 	case "zeroGroup":
+		// the group reference is either absent or present with value zero
+		var z *wpb.UintValue
+		if which%2 == 0 || len(MalformNames) == 0 {
+			z = uv(0)
+		}
+		zeroCount++
+		if zeroCount%2 == 0 {
+			z = uv(0)
+		} else {
+			z = nil
+		}
 		switch t := op.Entry.(type) {
 		case *spb.AFTOperation_Ipv4:
 			if t.Ipv4.Ipv4Entry != nil {
-				t.Ipv4.Ipv4Entry.NextHopGroup = nil
+				t.Ipv4.Ipv4Entry.NextHopGroup = z
 			}
 		case *spb.AFTOperation_Ipv6:
 			if t.Ipv6.Ipv6Entry != nil {
-				t.Ipv6.Ipv6Entry.NextHopGroup = uv(0)
+				t.Ipv6.Ipv6Entry.NextHopGroup = z
 			}
 		case *spb.AFTOperation_Mpls:
 			if t.Mpls.LabelEntry != nil {
-				t.Mpls.LabelEntry.NextHopGroup = nil
+				t.Mpls.LabelEntry.NextHopGroup = z
 			}
 		}
 		return ""
